@@ -94,6 +94,7 @@ def op_history(c):
     builder = Builder() if c.get('share_builder') else None
     out = []
     fc = None
+    live_cfg = None
     for mi, cfgj in c['steps']:
         fc = None
         fc = buildlib.parse_file(c['models'][mi]) if fcs is None else fcs[mi]
@@ -102,6 +103,18 @@ def op_history(c):
         except Exception as e:  # noqa
             out.append({'res': exc(e), 'changed': None})
             continue
+        if c.get('reuse_cfg'):
+            # one Configuration object lives through the history: the caller edits its fields between builds
+            if live_cfg is None:
+                live_cfg = cfg
+            else:
+                import dataclasses
+                try:
+                    for f in dataclasses.fields(cfg):
+                        setattr(live_cfg, f.name, getattr(cfg, f.name))
+                    cfg = live_cfg
+                except Exception:  # noqa  (a frozen Configuration cannot be edited: a new object then)
+                    live_cfg = cfg
         before = json_key([snap(fc), snap(cfg)])
         try:
             result = (builder or Builder()).build(cfg)
@@ -118,7 +131,7 @@ def op_history(c):
             i = next(k for k in range(min(len(a), len(b))) if a[k] != b[k]) if a[:min(len(a), len(b))] != b[:min(len(a), len(b))] else min(len(a), len(b))
             changed = {'before': a[max(0, i - 150):i + 150], 'after': b[max(0, i - 150):i + 150]}
         out.append({'res': res, 'changed': changed})
-        del cfg
+        cfg = None
     return out
 
 
